@@ -351,8 +351,27 @@ def judge_cli(res, d, modname, src, tmod, traces, spec):
         key = "source-import-deleted" if dtxt.startswith("imports of the original") else ("comment-lost" if dtxt.startswith("comments") else "program-changed")
         keys.setdefault(key + "[cli]" + ("[confine]" if confine else ""), []).append(dtxt)
     na = AE.annotations_of(after)
+    oa = AE.annotations_of(src["source"])
+    for pos, text in oa.items():
+        if text is not None and not confine:
+            res.count("cli_existing_annotations_checked")
+            if na.get(pos) != text:
+                keys.setdefault("existing-annotation-changed[cli]", []).append(f"{pos[0]}({pos[1]}): {text!r} became {na.get(pos)!r} although overwriting was not requested")
     if not any(v for v in na.values()):
         keys.setdefault("cli-apply-added-no-annotation", []).append("no annotation at all in the rewritten file")
     for key, texts in keys.items():
         res.violation(key, f"{modname} (cli apply, {src['style']}): {texts[0][:300]}", dict(wit, result=after[:2000]))
     open(os.path.join(d, modname + ".py"), "w").write(src["source"])
+    # `apply --ignore-existing-annotations`: every traced position receives the traced type whatever the source says
+    loose = [pos for pos, text in oa.items() if text == "object"]
+    if loose and not confine:
+        r3 = core.run_py(["-m", "monkeytype", "apply", modname, "--ignore-existing-annotations"], env=env, cwd=d, timeout=180)
+        res.count("cli_applies_ignore")
+        if r3.returncode != 0:
+            res.violation("cli-apply-fails", f"apply --ignore-existing-annotations rc={r3.returncode}: {r3.stderr[-300:]}", wit)
+        else:
+            na3 = AE.annotations_of(open(os.path.join(d, modname + ".py")).read())
+            kept = [pos for pos in loose if na3.get(pos) == "object"]
+            if kept:
+                res.violation("overwrite-requested-but-existing-annotation-kept[cli]", f"{modname}: apply --ignore-existing-annotations left {kept[0][0]}({kept[0][1]}): object", wit)
+        open(os.path.join(d, modname + ".py"), "w").write(src["source"])
